@@ -202,7 +202,12 @@ def normpath(path):
         elif new_comps:
             new_comps.pop()
     newpath = sep * initial_slashes + sep.join(new_comps)
-    newpath_bytes = newpath.encode('utf-8')
+    try:
+        newpath_bytes = newpath.encode('utf-8')
+    except UnicodeEncodeError:
+        # A lone surrogate, for instance from a file name that os.listdir()
+        # could not decode; there is no byte string to record for it.
+        raise pycdlibexception.PyCdlibInvalidInput('Paths must be encodable as UTF-8')
     if not starts_with_slash(newpath_bytes):
         raise pycdlibexception.PyCdlibInvalidInput('Must be a path starting with /')
 
